@@ -1332,6 +1332,9 @@ func checkTraversals(ref *refGraph, vm *vertexMaker, r *rand.Rand, res *CaseResu
 				if _, dup := pos[i]; dup {
 					res.violate("C20", "kahn-duplicate", fmt.Sprintf("KahnSort returned vertex %d twice", i), detail())
 				}
+				if (vm.kind == 3 || vm.kind == 5) && v != vs[i] {
+					res.violate("C20", "kahn-stale-vertex", fmt.Sprintf("KahnSort returned an object for vertex %d that is no longer the graph's vertex (it was overwritten)", i), detail())
+				}
 				pos[i] = k
 			}
 			if len(pos) != n {
@@ -1396,6 +1399,13 @@ func checkTraversals(ref *refGraph, vm *vertexMaker, r *rand.Rand, res *CaseResu
 			}
 			if _, dup := compOf[i]; dup {
 				res.violate("C20", "scc-duplicate", fmt.Sprintf("vertex %d appears in two components", i), detail())
+			}
+			if vm.kind == 3 || vm.kind == 5 {
+				// pointer vertices: the component lists hold the graph's
+				// CURRENT vertices, not an object that AddOverwrite replaced
+				if v != vs[i] {
+					res.violate("C20", "scc-stale-vertex", fmt.Sprintf("StronglyConnected lists an object for vertex %d that is no longer the graph's vertex (it was overwritten)", i), detail())
+				}
 			}
 			compOf[i] = ci
 		}
